@@ -184,7 +184,12 @@ class AsyncTLSStreamTransport(AsyncStreamTransport):
                         try:
                             await self._retry_ssl_method(self._ssl_object.unwrap)
                         except OSError:
-                            pass
+                            # unwrap() may fail after the "close notify" alert has been produced
+                            # (e.g. application data sent by the peer was left unread): the alert must still be sent.
+                            if self._write_bio.pending:
+                                with contextlib.suppress(OSError):
+                                    async with self.__transport_send_lock:
+                                        await self._transport.send_all(self._write_bio.read())
                         self._read_bio.write_eof()
                         self._write_bio.write_eof()
                     except BaseException:
